@@ -458,11 +458,14 @@ CompSpecs(specs, env, sc, acc, fuel) ==
 
 ForceAll(ts, fuel) == AllOf([i \in 1..Len(ts) |-> Force(ts[i], fuel)])
 
+\* std.foldl as upstream defines it: the running value is forced at every step
+\* (`aux(..., func(running, arr[idx]), idx + 1) tailstrict`), the initial value is not.
 FoldL(f, ts, acc, fuel) ==
   IF fuel = 0 THEN Bottom ELSE
   IF ts = <<>> THEN Force(acc, fuel)
-  ELSE FoldL(f, Tail(ts), Th(<<"call", <<"var", "f">>, << <<"var", "a">>, <<"var", "x">> >>, <<>>, FALSE>>,
-                             << <<"vals", <<"f", "a", "x">>, <<ValTh(f), acc, Head(ts)>> >> >>, NoSc), fuel - 1)
+  ELSE Bind(Force(Th(<<"call", <<"var", "f">>, << <<"var", "a">>, <<"var", "x">> >>, <<>>, FALSE>>,
+                     << <<"vals", <<"f", "a", "x">>, <<ValTh(f), acc, Head(ts)>> >> >>, NoSc), fuel - 1),
+            LAMBDA v : FoldL(f, Tail(ts), ValTh(v), fuel - 1))
 
 \* A thunk that applies function value f to argument thunks.
 AppTh(f, args) ==
@@ -572,6 +575,7 @@ StdCall(name, args, env, sc, fuel) ==
            ELSE FoldL(f, a[2], T(3), fuel - 1))
     [] name = "toString" /\ Len(args) = 1 ->
          Bind(A(1), LAMBDA v : Bind(ToStr(v, fuel - 1, FALSE), LAMBDA s : Ok(StrV(s))))
+    [] name = "trace" /\ Len(args) = 2 -> Bind(A(1), LAMBDA m : IF m[1] # "str" THEN RtErr ELSE A(2))
     [] name = "equals" /\ Len(args) = 2 ->
          Both(A(1), A(2), LAMBDA a, b : Bind(EqualV(a, b, fuel - 1), LAMBDA e : Ok(BoolV(e))))
     [] name = "get" /\ Len(args) \in {2, 3} ->
